@@ -11,33 +11,33 @@ NOTE_COMMON = ("Trusted: rustc's front end, MIR construction, trait resolution a
 PE = "partial evaluation of configuration-determined MIR (engine E4: constant propagation with loops unrolled over the finite configuration space; payload symbolic)"
 P = {
  "C01": ("other", "DESIGN.md 3/C01 + 7", "MIR constant folding of all ISO tables + def-use/dominance rules over pipeline hand-offs + " + PE + " of blank symbol, format writer, mask sweeps, interleaving and codeword placement (symbolic codeword bits)",
-         "Every table, hand-off, the interleave, the zig-zag placement (bit i -> i-th data module, 13 versions quick / 40 thorough), the mask sets and the format positions are decided exactly for every payload; the segment encoders' bit packing (push_bits shifts) and the GF division loop are decided only through their constants and one-step algebra, so round-trip equality as a whole is not claimed."),
- "C02": ("other", "DESIGN.md 3/C02 + 7", "MIR constant folding of block/generator tables vs ISO Table 9 + " + PE + " of polynomials::structure with symbolic data codewords and an opaque division",
-         "All 160 layouts, counts, degrees, 13 generators and the complete interleaved sequence (data then EC, zero tail) are exact for all 160 cells; the division loop itself (C07) and the corruption corollary are not decided."),
+         "Every table, hand-off, the interleave, the zig-zag placement (bit i -> i-th data module, 14 versions incl. V40 quick / 40 thorough), the mask sets and the format positions are decided exactly for every payload; the GF division is decided for every block content (C07.R4) and the segment encoders bit for bit on the cells of C06.R2 (every payload length on V01-V03 and V05-L, long payloads, the capacity of V40); the encoders at other lengths of larger symbols are not enumerated, so round-trip equality as a whole is not claimed."),
+ "C02": ("other", "DESIGN.md 3/C02 + 7", "MIR constant folding of block/generator tables vs ISO Table 9 + " + PE + " of polynomials::structure with symbolic data codewords and an opaque division + " + PE + " of polynomials::division over GF(2^8)-linear forms of free block bytes (zero syndromes for every block content)",
+         "All 160 layouts, counts, degrees, 13 generators and the complete interleaved sequence (data then EC, zero tail) are exact for all 160 cells; each block's EC codewords are the remainder for every block content of every block length in use (C07.R4); the corruption corollary (a textbook consequence) is not mechanised."),
  "C03": ("other", "DESIGN.md 3/C03 + 7", PE + " of default::create_matrix for all 40 versions against an ISO region map + table folding (geometry, Annex E) + edge-dominance guard rule",
          "Every module of the blank symbol (label and fixed value) for all 40 versions, nothing outside size x size, the format writer touching format positions only (so function patterns are level/mask independent), guarded writes after construction."),
  "C04": ("other", "DESIGN.md 3/C04 + 7", "BCH recomputation of 32+34 words + " + PE + " of the format writer (30 ISO positions, bit k at both copies) and of the version blocks + single-source rule for the mask + outcome table of QRCode::new",
          "Word values, their bit-to-coordinate placement (quick: 168 (version, level, mask) cells; thorough: 1280) and value provenance of the reported fields are exact."),
- "C05": ("proof", "DESIGN.md 3/C05 + 7", "decision-tree extraction of Version::get over all usize + " + PE + " of QRCode::new into an outcome table (24 600 cells around every capacity threshold x forced versions x given/defaulted mode and level) + compile witness",
+ "C05": ("proof", "DESIGN.md 3/C05 + 7", "decision-tree extraction of Version::get over all usize (an interval behind a narrowing cast is probed at concrete lengths) + " + PE + " of QRCode::new into an outcome table (24 600 cells around every capacity threshold x forced versions x given/defaulted mode and level) + compile witness",
          "Exact for all lengths x 12 (mode, level) and forced versions, relative to the encoders emitting the bit counts the capacity formula assumes (widths decided by C06 rules)."),
  "C06": ("other", "DESIGN.md 3/C06", PE + " of push_bits/push_u8 on symbolic words (bit-vector domain) and of encode() with a symbolic payload (affine value expressions with ranges): data codewords = ISO 7.4 stream bit for bit + table folding of count widths and value tables",
-         "Exact for the stated (mode, version, level, length) cells (quick 252, thorough ~5 000) and all payload contents in the mode's alphabet; lengths between the sampled residues/boundaries follow from the uniform loop body, which is not separately proved."),
- "C07": ("other", "DESIGN.md 3/C07 + 7.2/7.3", "GF(256) table and generator recomputation from the definition + " + PE + " of polynomials::division with the crate's own generators on the single-nonzero-byte basis (all 255 values at the last position, spread values at first/middle), zero-run and fixed dense blocks + buffer obligations over 160 cells + skip-set of the step over all 256 byte values + one-step polynomial algebra + exact placement of the remainder in the codeword sequence (C02.R4)",
-         "Tables, generators, the division on the stated basis and samples (shortest and longest block length per degree; all lengths thorough) exact; additivity over all 256^k contents follows from the uniform xor step (read by C07.R2 when the loop is written with indices) and is not proved here."),
- "C08": ("other", "DESIGN.md 3/C08 + 7", PE + " of the eight sweeps on symbolic module values (toggled set = ISO Table 10 at every coordinate, value-independent by construction; quick V01-V10, thorough all 40) + edge-dominance guard rule + single-source rule for the mask",
+         "Exact for the stated (mode, version, level, length) cells and all payload contents in the mode's alphabet: every length 0..capacity on V01-V03 at every level and V05-L (quick; V01-V08 thorough), lengths around 2^8..2^12, the capacity of every level of V40 and of the count-width class boundaries (quick ~2 100 cells); the other lengths of larger symbols follow from the uniform loop body, which is not separately proved."),
+ "C07": ("other", "DESIGN.md 3/C07 + 7.2/7.3", "GF(256) table and generator recomputation from the definition + " + PE + " of polynomials::division with the block bytes as free symbols over a GF(2^8)-linear-form domain (zero-coefficient branch evaluated both ways and merged, log/antilog tables recognised by content, every assert decided) for all 13 degrees x every block length in use + the same routine on concrete contents: the single-nonzero-byte basis (all 255 values at the last position, spread values at first/middle), zero-run and fixed dense blocks + buffer obligations over 160 cells + skip-set of the step over all 256 byte values + one-step polynomial algebra + exact placement of the remainder in the codeword sequence (C02.R4)",
+         "Tables, generators and the division for every block content of every block length in use are exact (C07.R4); the concrete basis and samples (C07.R3) are a cross-check and the fallback when a rewritten division leaves the linear-form domain (then additivity rests on the step algebra of C07.R2)."),
+ "C08": ("other", "DESIGN.md 3/C08 + 7", PE + " of the eight sweeps on symbolic module values (toggled set = ISO Table 10 at every coordinate, value-independent by construction; quick V01-V10, V25, V40 - every coordinate up to 177; thorough all 40) + edge-dominance guard rule + single-source rule for the mask",
          "Exact toggle sets and untouched function modules for every payload; the mask applied is the mask recorded."),
  "C09": ("other", "DESIGN.md 3/C09", "exhaustive folding of classifier and value tables over 256 bytes + " + PE + " of best_encoding over every class pattern up to length 7/8 + origin analysis of the mode",
          "Classifier and its agreement with the encoder exact for all byte values; the scan exact for all class patterns of short inputs (the property's own quantifier); long inputs follow from the uniform loop."),
  "C10": ("other", "DESIGN.md 3/C10", "capacity decision tree + QRCode::new outcome table + buffer-size obligations + accounted panic sites + panic-freedom of the configuration-determined code by " + PE + " + compile witness",
-         "Decides the anchored mechanisms (gate, buffers, error type) and that drawing, masking, placement, interleaving and format writing cannot panic for any of the configurations; value-range proofs of the remaining compiler-inserted asserts are declined."),
- "C11": ("other", "DESIGN.md 3/C11 + 7.2", PE + " of place_on_matrix with summarised stages and an oracle for the penalties (selection semantics) + " + PE + " of the four penalty terms on complete small domains (every line of up to 11 data modules and every mixed-label line up to 6, every 2x2 symbol and 3x3 families, every dark percentage 0..99, totals on 60 8x8 symbol pairs) against a model written from the property + data-dependence slices, edge dominance, reaching definitions across the loop back edge (candidate freshness) + scorer constants",
+         "Decides the anchored mechanisms (gate, buffers, error type) and that drawing, masking, placement, interleaving and format writing cannot panic for any of the configurations, the GF division for any block content (C07.R4, every assert decided), the encoders on the evaluated length cells; the scorers on arbitrary symbols and the encoders at other lengths are not decided."),
+ "C11": ("other", "DESIGN.md 3/C11 + 7.2", PE + " of place_on_matrix with summarised stages and an oracle for the penalties (selection semantics) + " + PE + " of the four penalty terms on complete small domains (every line of up to 11 data modules and every mixed-label line up to 6, every 2x2 symbol and 3x3 families, every dark percentage 0..99, totals on 60 8x8 symbol pairs; beyond the complete domains 147 fixed lines of widths 21..177 and symbols of real sizes with the ISO function-pattern layout) against a model written from the property + data-dependence slices, edge dominance, reaching definitions across the loop back edge (candidate freshness) + scorer constants",
          "Reports the known finding D1 (column penalties computed on an unmasked copy). Selection exact; penalty terms exact on the stated small domains, longer lines and larger symbols follow from the uniform loop bodies (not separately proved)."),
  "C12": ("other", "DESIGN.md 3/C12 + 7.2", "forward taint with decision-table-recognised sanitiser + format-template decoding + " + PE + " of SvgBuilder::to_str with symbolic module values (one sub-path slot per module, taken iff dark, anchored in the cell, per layer) + " + PE + " of every colour conversion over every value of every channel + dominance/must-pass-through rules",
          "Exact for every matrix content on 40 (version, margin, layer program) configurations (160 thorough); RGBA colours for every channel value and the image string; free-form colour strings are outside the property; XML parsers are not run."),
  "C13": ("other", "DESIGN.md 3/C13", "sibling-agreement rule over 11 forwarding methods + " + PE + " of the fit setters and of the FitTo decision (11 setter programs) + origin analysis + the SVG document and colour rules of C12 evaluated on the image configuration",
          "Option plumbing, the fit request, the rasterised document and its colours only: pixel values come from resvg/tiny-skia whose bodies are not local MIR."),
  "C14": ("proof", "DESIGN.md 3/C14 + 7.2", "crate-wide fact enumeration (statics, unsafe, type graph through local and dependency type definitions, signatures, call-graph deny-list) + setter algebra by " + PE + " (last value wins, pairwise commutation, build hands on the final values) + Send/Sync and borrow witnesses",
-         "Proof modulo: std deterministic, resvg without global state; zero-count rules are exercised on a positive fixture every run; the setter identities are evaluated with two distinct values per parameter (the setter bodies do not branch on the values, else the evaluation abstains)."),
+         "Proof modulo: std deterministic, resvg without global state; zero-count rules are exercised on a positive fixture every run; the setter identities are evaluated with two to four values per parameter (including zero, negative and empty ones), every ordered pair for last-value-wins."),
  "C15": ("other", "DESIGN.md 3/C15 + 7", "exhaustive folding of the label encoding + " + PE + " of blank symbol, format writer and placement against the ISO region map + guarded-write rule + callback-argument rule + witnesses",
          "Every module's label for all 40 versions, preserved by every later writer; the module handed to shape callbacks is the one at (row, column)."),
  "C16": ("other", "DESIGN.md 3/C16 + 7", PE + " of the terminal renderer with symbolic module values and symbolic-branch merging (every glyph as a decision table over the two modules in place; quick 8 sizes incl. V39/V40, thorough 40) + no-static rule",
